@@ -1578,6 +1578,12 @@ func (ctx Ctx) defineStmt(s *ast.AssignStmt) coq.Binding {
 	var names []string
 	for _, ident := range idents {
 		names = append(names, ident.Name)
+		// := only defines the identifiers that are new in this scope and assigns
+		// to the others; for a pointer-wrapped variable the let: binding emitted
+		// here would shadow the pointer with the assigned value
+		if ident.Name != "_" && ctx.info.Defs[ident] == nil && ctx.isPtrWrapped(ident) {
+			ctx.unsupported(ident, "%s is already declared in this scope: := assigns to it (use a separate assignment)", ident.Name)
+		}
 	}
 	// NOTE: this checks whether the identifier being defined is supposed to be
 	// 	pointer wrapped, so to work correctly the caller must set this identInfo
